@@ -25,9 +25,9 @@ type e2spec struct {
 }
 
 var engine2Tiers = map[string]map[string]e2spec{
-	"C05": {"quick": {24, 9600, 150, 192}, "thorough": {96, 300000, 1500, 576}},
-	"C15": {"quick": {24, 4800, 150, 0}, "thorough": {96, 200000, 1500, 0}},
-	"C20": {"quick": {20, 9600, 200, 96}, "thorough": {64, 300000, 1800, 320}},
+	"C05": {"quick": {28, 16000, 150, 192}, "thorough": {96, 300000, 1500, 576}},
+	"C15": {"quick": {32, 9600, 150, 0}, "thorough": {96, 200000, 1500, 0}},
+	"C20": {"quick": {28, 16000, 200, 128}, "thorough": {64, 300000, 1800, 432}},
 }
 
 // e2Violation mirrors the fields of rsim.Violation the driver needs.
